@@ -17,8 +17,7 @@ theorem C16_reachable (ro : Xml) (rs : List Reader) (ws : List Warn) (strict : B
       v.duration = (if v.stories.all (fun s => s.duration.isSome)
                     then some ((v.stories.map (fun s => s.duration.getD 0)).sum) else none) ∧
       v.stop = (v.stories.getLast?).bind (·.stop) ∧
-      (((rc.findall "story").map (fun s => Xml.childText (some s) "storyID")).Nodup →
-        ∀ k (hk : k < v.stories.length), (v.stories[k]).offset = some (prefixSum (durationsOf (rc.findall "story")) k)) := by
+      (∀ k (hk : k < v.stories.length), (v.stories[k]).offset = some (prefixSum (durationsOf (rc.findall "story")) k)) := by
   obtain ⟨v, hv⟩ := C15_reachable ro rs ws strict h hr
   obtain ⟨rc, hrc, _, hstop, hdur, hds, hoff, _⟩ := C16_view_consistent _ v hv
   exact ⟨v, rc, hv, hrc, hds, hdur, hstop, hoff⟩
